@@ -2,7 +2,8 @@
 //! inputs and call schedules and writes a transcript for the Lean driver (`mzdriver check`).
 //! usage: mzharness <prop> <tier> <seed> <transcript> <result.json> [replay-file]
 mod rng; mod plain; mod sgen; mod tx;
-mod c01;
+mod comp;
+mod c01; mod c02; mod c09; mod c10; mod c11; mod c12; mod c15; mod c16;
 
 use tx::Ctx;
 
@@ -20,11 +21,18 @@ fn main() {
         prop: a[1].clone(), tier: a[2].clone(), seed, rng: rng::Rng::new(seed ^ tx::fnv(a[1].as_bytes())),
         out: std::io::BufWriter::with_capacity(1 << 20, std::fs::File::create(&a[4]).unwrap()),
         next_id: 0, viol: vec![], counters: Default::default(), samples: vec![], evals: 0,
-        nontrivial: Default::default(), scale: if a[2] == "thorough" { 10 } else { 1 }, replay_lines,
+        nontrivial: Default::default(), scale: std::env::var("VERIF_SCALE").ok().and_then(|s| s.parse().ok()).unwrap_or(1) * if a[2] == "thorough" { 10 } else { 1 }, replay_lines,
     };
     std::panic::set_hook(Box::new(|_| {}));
     match a[1].as_str() {
         "C01" => c01::run(&mut ctx),
+        "C02" => c02::run(&mut ctx),
+        "C09" => c09::run(&mut ctx),
+        "C10" => c10::run(&mut ctx),
+        "C11" => c11::run(&mut ctx),
+        "C12" => c12::run(&mut ctx),
+        "C15" => c15::run(&mut ctx),
+        "C16" => c16::run(&mut ctx),
         p => { eprintln!("unknown property {}", p); std::process::exit(2); }
     }
     ctx.write_result(&a[5]);
